@@ -130,6 +130,30 @@ def generate(rng, tier):
             P("%02x" % a)
             for b in range(256):
                 P("%02x%02x" % (a, b))
+    # standard script shapes with ONE thing wrong: every byte position perturbed, every truncation, an overrunning
+    # push or an unclosed conditional appended (a shortcut taken for a recognised prefix / length / suffix must still
+    # apply the general rules)
+    q = tier == "quick"
+    h20, h33, h65 = "11" * 20, "02" + "22" * 32, "04" + "33" * 64
+    shapes = ["76a914" + h20 + "88ac", "21" + h33 + "ac", "41" + h65 + "ac", "a914" + h20 + "87",
+              "006a04deadbeef4c050102030405", "6a04deadbeef", "5221" + h33 + "21" + h33 + "52ae", "0063ac6751ac68"]
+    few = [0x00, 0x01, 0x13, 0x14, 0x15, 0x4b, 0x4c, 0x4d, 0x4e, 0x4f, 0x63, 0x67, 0x68, 0x6a, 0xab, 0xff]
+    for si, sh in enumerate(shapes):
+        b = bytes.fromhex(sh)
+        wide = set([0, 1, 2, 3, len(b) - 2, len(b) - 1]) if si in (0, 4) else set([0, len(b) - 1])
+        for i in range(len(b)):
+            vals = range(256) if (i in wide and (not q or i in (0, 2, len(b) - 1))) else sorted(set(few + [(b[i] + 1) % 256, (b[i] - 1) % 256]))
+            if q and i not in wide and i % 3:
+                continue
+            for v in vals:
+                if v != b[i]:
+                    P((b[:i] + bytes([v]) + b[i + 1:]).hex())
+        for k in range(len(b)):
+            P(b[:k].hex())
+        for tail in ("4c05aabb", "4d0500aa", "4e05000000aa", "4c", "4d01", "4e010000", "63", "6367", "67", "68", "05aa"):
+            P(sh + tail)
+            P(sh[:4] + tail)
+            P(sh[:4] + tail + sh[4:])
     # the other public routes to the same script (get_script_length, to_hex, from_hex, from_script_bits) on the same inputs;
     # every PUSHDATA1/2/4 form with payload lengths around the compact-size classes (a length computed from the payload
     # size instead of the stored push opcode differs exactly there)
